@@ -375,9 +375,11 @@ Definition opt_fields_eqb (a b : option (list field)) : bool :=
 Definition card_eqb (a b : card) : bool :=
   forallb (fun k => opt_fields_eqb (card_assoc k a) (card_assoc k b)) ((map fst a ++ map fst b)%list).
 
+(** ContentLength ([o_len]) is carried by the model (filterProperties leaves it 0
+    in a reduced object) but not compared: the property does not constrain it. *)
 Definition object_eqb (a b : object) : bool :=
   String.eqb (o_path a) (o_path b) && String.eqb (o_etag a) (o_etag b) &&
-  Z.eqb (o_mtime a) (o_mtime b) && Z.eqb (o_len a) (o_len b) && card_eqb (o_card a) (o_card b).
+  Z.eqb (o_mtime a) (o_mtime b) && card_eqb (o_card a) (o_card b).
 
 Definition objs_eqb : list object -> list object -> bool := list_eqb object_eqb.
 
